@@ -80,7 +80,7 @@ class C14(Check):
     def gen(self, rng, tier, idx):
         from sim import shardeng
         kind = rng.choice(["flat", "deep", "sharded", "sharded",
-                           "sharded_legacy"])
+                           "sharded_legacy", "sharded_mixed"])
         scn = {"kind": kind, "url": rng.choice(URLS),
                "two_scales": rng.random() < 0.5,
                "zero_range": rng.choice(["200", "416", "206"]),
@@ -156,9 +156,11 @@ class C14(Check):
                                         shardeng.coords(sh, (x, y, z)))
                         stored[(key, (x, y, z))] = buf
                 acc.close()
-                if scn["kind"] == "sharded_legacy":
+                if scn["kind"] in ("sharded_legacy", "sharded_mixed"):
                     from sim.simhttp import to_legacy
-                    to_legacy(fs, DS, {k: sh["bits"][0] for k in keys})
+                    to_legacy(fs, DS, {k: sh["bits"][0] for k in keys},
+                              every=2 if scn["kind"] == "sharded_mixed"
+                              else 1)
                 grid = sh["grid"]
                 positions = {
                     (key, p): shardeng.coords(sh, p) for key in keys
@@ -469,7 +471,7 @@ class C14(Check):
                 outcomes.add("ok")
                 if sharded:
                     res.probe("sharded_fetch_ok")
-                    if scn["kind"] == "sharded_legacy":
+                    if scn["kind"] in ("sharded_legacy", "sharded_mixed"):
                         res.probe("legacy_pair_read")
             return
         # never stored
